@@ -384,7 +384,7 @@ impl Scn
         let names = self.thread_names(&goal_opt, is_build);
         {
             let mut fs = self.sys.fs.lock().unwrap();
-            fs.names = names; fs.touched.clear(); fs.overw.clear(); fs.snaps.clear(); fs.snap_on = snaps; fs.nmut = 0;
+            fs.names = names; fs.touched.clear(); fs.overw.clear(); fs.takes.clear(); fs.snaps.clear(); fs.snap_on = snaps; fs.nmut = 0;
         }
         let o = Scn::run_raw(&self.sys, &self.rules, is_build, &goal_opt, sched);
         self.flush();
